@@ -487,10 +487,39 @@ func (r *Run) FlushHits() {
 func (r *Run) Guard(caseDesc any, f func()) {
 	defer func() {
 		if p := recover(); p != nil {
-			buf := make([]byte, 8192)
+			buf := make([]byte, 16384)
 			n := runtime.Stack(buf, false)
-			r.Violation("no-panic", fmt.Sprintf("the code under test panicked: %v", p), map[string]any{"case": caseDesc, "stack": string(buf[:n])})
+			stack := string(buf[:n])
+			if panickedInHarness(stack) {
+				// the panic was raised by a statement of the harness itself (not inside a call into the code under test):
+				// a defect of the check, never a verdict on the code
+				fmt.Fprintf(os.Stderr, "HARNESS-PANIC %v\n%s\n", p, stack)
+				r.Inconclusive(fmt.Sprintf("the harness itself panicked (%v); the case is not judged", p))
+				return
+			}
+			r.Violation("no-panic", fmt.Sprintf("the code under test panicked: %v", p), map[string]any{"case": caseDesc, "stack": stack})
 		}
 	}()
 	f()
+}
+
+// panickedInHarness reports whether the frame that raised the panic (the first frame below the runtime's panic
+// machinery) belongs to the harness module.
+func panickedInHarness(stack string) bool {
+	lines := strings.Split(stack, "\n")
+	seenPanic := false
+	for _, l := range lines {
+		if l == "" || l[0] == '\t' || strings.HasPrefix(l, "goroutine ") {
+			continue
+		}
+		if strings.HasPrefix(l, "panic(") {
+			seenPanic = true
+			continue
+		}
+		if !seenPanic || strings.HasPrefix(l, "runtime.") || strings.HasPrefix(l, "runtime/") {
+			continue
+		}
+		return strings.HasPrefix(l, "verifharness/")
+	}
+	return false
 }
